@@ -496,7 +496,7 @@ _COMPOUND_FORMS = {
 _COMPOUND_EXTRA = {
     "int": {"plus": "({p} + {p}2)", "neg": "(-{p})", "cmp": None}, "nat": {"plus": "({p} + {p}2)"}, "float": {"plus": "({p} + {p}2)", "neg": "(-{p})"},
     "bool": {"not": "(not {p})", "cmp": "({p} == {p}2)", "in": "({p} in ({p}2,))"}, "str": {"plus": "({p} + {p}2)", "mod": "('%s' % {p})"},
-    "list_int": {"plus": "({p} + {p}2)", "star": "[*{p}]"}, "tuple_int": {"plus": "({p} + {p}2)"}, "set_int": {"bitor": "({p} | {p}2)"},
+    "list_int": {"plus": "({p} + {p}2)"}, "tuple_int": {"plus": "({p} + {p}2)"}, "set_int": {"bitor": "({p} | {p}2)"},
     "list_str": {"plus": "({p} + {p}2)"}, "bytes": {"plus": "({p} + {p}2)"},
 }
 
@@ -528,11 +528,14 @@ def compound_variants(rule: Rule) -> list[Rule]:
         return []
     stored = {n.id for n in ast.walk(tree) if isinstance(n, ast.Name) and not isinstance(n.ctx, ast.Load)}
     out = []
+    kind_of = {"str": "str", "int": "int", "float": "float", "bool": "bool", "bytes": "bytes", "list[int]": "list_int", "list[str]": "list_str",
+               "tuple[int, ...]": "tuple_int", "set[int]": "set_int", "dict[str, int]": "dict_str_int", "list[float]": "list_int"}
     for p, tag in rule.params.items():
-        if p in stored or tag not in _BOOLISH or (p + "2") in rule.params:
+        kind = tag if tag in _BOOLISH else kind_of.get(ANNOT.get(tag, ""))
+        if p in stored or kind is None or (p + "2") in rule.params:
             continue
         forms = {k: v for k, v in _COMPOUND_FORMS.items()}
-        for k, v in _COMPOUND_EXTRA.get(tag, {}).items():
+        for k, v in _COMPOUND_EXTRA.get(kind, {}).items():
             if v:
                 forms[k] = (v, {})
         for fname, (tpl, extra) in forms.items():
@@ -909,6 +912,7 @@ def run(ctx: Ctx) -> None:
         unmatched, underivable, stale, variant_underivable = [], [], [], []
         swapped_reported: set = set()
         derived: dict = {}
+        msgs_by_index: dict = {}
         scratch = td / "scratch"
         for i, r in enumerate(ALL):
             es = by_rule.get(i)
@@ -921,6 +925,16 @@ def run(ctx: Ctx) -> None:
                 continue
             msg = es[0].msg
             rhs, how = derive_rhs(r, msg)
+            msgs_by_index[i] = msg
+            if rhs is None and id(r) in COMPOUND_INFO:
+                # the quoted original no longer matches the instance (it lost the operand's parentheses): when the base
+                # idiom's advice replaces the whole instance, so does this one, by the text it prints
+                bi_ = base_index.get(id(COMPOUND_INFO[id(r)][0]))
+                mb = re.fullmatch(r"Replace `(.*)` with `(.*)`", msgs_by_index.get(bi_, ""), flags=re.S)
+                mv = re.fullmatch(r"Replace `(.*)` with `(.*)`", msg, flags=re.S)
+                if mb and mv and norm(mb.group(1)) == norm(ALL[bi_].lhs) and "..." not in mv.group(2):
+                    rhs, how = (mv.group(2), "message (whole instance)") if _parse_fragment(mv.group(2)) is not None else ("<<invalid>>" + mv.group(2), "message")
+                    ctx.count("compound:quoted-original-does-not-match-the-instance")
             if is_variant:
                 ctx.count("variant-flagged")
             if rhs is None:
